@@ -14,6 +14,7 @@ UOM_BYTE = "uom::si::information::byte"
 def run(chk, tier):
     prog, info = common.program("all")
     common.note_extraction(chk, info, prog)
+    common.vacuity(chk, ['R-TABLE', 'VN-bits', 'R-PANIC'])
     chk.explanation = ("R-LAYOUT on MessageHeader (ICD table II rows, repr(C) size 28 = wire size); value numbering of every accessor "
                        "into a canonical piecewise term over the header fields, compared with the specified closed form (type table, "
                        "channel codes, segmented <=> size != 0xFFFF, size rule, agreement of the plain and unit-typed size accessors); "
